@@ -5,7 +5,7 @@
     An ISD-AS is a pair (ISD, AS); AS 0 is the wildcard.  Time is in seconds (Z);
     [time.Now()] is the explicit argument [now].  The segment fetcher, the path
     combinator, the revocation cache lookup and the next-hop lookup are function
-    parameters of [get_paths]. *)
+    arguments of [get_paths]. *)
 From Coq Require Import List NArith ZArith Bool.
 From Scion Require Import Lib.Check.
 Import ListNotations.
@@ -358,12 +358,12 @@ Definition check (c : case) : N :=
                    && (length (res_paths m) =? length paths)%nat)
                   (oracle e reqs ok paths)
   | CSplit sp dst ok reqs =>
+    let same l := set_eqb req_eqb l reqs && (length l =? length reqs)%nat in
     match split sp dst, split_spec sp dst with
-    | SplitOk l, SplitOk l' =>
-      Check.verdict (ok && list_eqb req_eqb l reqs) (ok && list_eqb req_eqb l' reqs)
+    | SplitOk l, SplitOk l' => Check.verdict (ok && same l) (ok && same l')
     | SplitErr, SplitErr => Check.verdict (negb ok) (negb ok)
-    | SplitOk l, SplitErr => Check.verdict (ok && list_eqb req_eqb l reqs) (negb ok)
-    | SplitErr, SplitOk l' => Check.verdict (negb ok) (ok && list_eqb req_eqb l' reqs)
+    | SplitOk l, SplitErr => Check.verdict (ok && same l) (negb ok)
+    | SplitErr, SplitOk l' => Check.verdict (negb ok) (ok && same l')
     end
   end.
 
